@@ -7,12 +7,14 @@ import (
 	"sort"
 	"strings"
 	"sync"
+	"time"
 
 	"github.com/nspcc-dev/neo-go/pkg/core/block"
 	"github.com/nspcc-dev/neo-go/pkg/core/native/nativehashes"
 	"github.com/nspcc-dev/neo-go/pkg/core/state"
 	"github.com/nspcc-dev/neo-go/pkg/core/storage"
 	"github.com/nspcc-dev/neo-go/pkg/core/transaction"
+	"github.com/nspcc-dev/neo-go/pkg/crypto/hash"
 	"github.com/nspcc-dev/neo-go/pkg/crypto/keys"
 	"github.com/nspcc-dev/neo-go/pkg/io"
 	"github.com/nspcc-dev/neo-go/pkg/neotest"
@@ -521,6 +523,8 @@ func (c *stateCtx) buildSpecials(n *chainx.Node, tip uint32) error {
 	fund("fund-b-exact", 0xC0630003, bal-half-2*nf)   // a+b = balance
 	fund("fund-single-over", 0xC0630004, bal-nf+1)    // alone: balance+1
 	fund("fund-single-exact", 0xC0630005, bal-nf)     // alone: balance
+	c.sp["big-max"] = c.bigTx(transaction.MaxTransactionSize, 0xC0650001, tip+7)
+	c.sp["big-over"] = c.bigTx(transaction.MaxTransactionSize+1, 0xC0650002, tip+7)
 	if cv.Blocked[chainx.Acc(3).ScriptHash()] {
 		t := handTx(3, c.magic, transferScript(3, 1, 1), 0xC0640001, tip+7, 1*gas, gas/10)
 		t.Signers[0].Scopes = transaction.Global
@@ -534,7 +538,9 @@ func (c *stateCtx) buildSpecials(n *chainx.Node, tip uint32) error {
 // prepare builds a fresh replica at state S (history replayed from wire bytes,
 // mode applied).
 func (c *stateCtx) prepare() (*chainx.Node, error) {
+	t0 := time.Now()
 	n, err := chainx.New(c.fam.Opts())
+	tNew.Add(int(time.Since(t0).Microseconds()))
 	if err != nil {
 		return nil, err
 	}
@@ -658,4 +664,66 @@ func rawDump(s storage.Store) map[string]string {
 		}
 	}
 	return m
+}
+
+// paddedSigScript is a signature contract of account k preceded by a pushed
+// and dropped filler, 1024 bytes in total (the largest verification script).
+func paddedSigScript(k int) []byte {
+	std := chainx.Acc(k).Contract.Script
+	fill := transaction.MaxVerificationScript - len(std) - 4
+	out := []byte{byte(opcode.PUSHDATA2), byte(fill), byte(fill >> 8)}
+	for i := 0; i < fill; i++ {
+		out = append(out, byte(k))
+	}
+	out = append(out, byte(opcode.DROP))
+	return append(out, std...)
+}
+
+// bigTx builds a well-signed transaction of account 4 whose serialized size is
+// exactly target bytes: 16 signers with full custom scopes, 15 of them with
+// padded verification scripts, and a script of NOPs that takes up the rest.
+func (c *stateCtx) bigTx(target int, nonce, vub uint32) *transaction.Transaction {
+	pub := chainx.Acc(1).PublicKey()
+	var contracts []util.Uint160
+	var groups []*keys.PublicKey
+	var conds []transaction.WitnessCondition
+	for i := 0; i < 16; i++ {
+		contracts = append(contracts, util.Uint160{byte(i + 1)})
+		groups = append(groups, pub)
+		g := transaction.ConditionGroup(*pub)
+		conds = append(conds, &g)
+	}
+	or := transaction.ConditionOr(conds)
+	var rules []transaction.WitnessRule
+	for i := 0; i < 10; i++ {
+		rules = append(rules, transaction.WitnessRule{Action: transaction.WitnessAllow, Condition: &or})
+	}
+	build := func(scriptLen int) *transaction.Transaction {
+		script := make([]byte, scriptLen)
+		for i := range script {
+			script[i] = byte(opcode.NOP)
+		}
+		script[scriptLen-1] = byte(opcode.RET)
+		t := transaction.New(script, 1*gas)
+		t.Nonce, t.ValidUntilBlock, t.NetworkFee = nonce, vub, 4*gas
+		t.Signers = []transaction.Signer{{Account: chainx.Acc(4).ScriptHash(), Scopes: transaction.CustomContracts | transaction.CustomGroups | transaction.Rules,
+			AllowedContracts: contracts, AllowedGroups: groups, Rules: rules}}
+		t.Scripts = []transaction.Witness{{InvocationScript: make([]byte, 66), VerificationScript: chainx.Acc(4).Contract.Script}}
+		for k := 20; k < 35; k++ {
+			vs := paddedSigScript(k)
+			t.Signers = append(t.Signers, transaction.Signer{Account: hash.Hash160(vs), Scopes: transaction.CustomContracts | transaction.CustomGroups, AllowedContracts: contracts, AllowedGroups: groups})
+			t.Scripts = append(t.Scripts, transaction.Witness{InvocationScript: make([]byte, 66), VerificationScript: vs})
+		}
+		return retx(t)
+	}
+	t := build(60000)
+	t = build(60000 + target - t.Size())
+	if t.Size() != target {
+		panic(fmt.Sprintf("big transaction: size %d, wanted %d", t.Size(), target))
+	}
+	t.Scripts[0].InvocationScript = sigPush(chainx.Acc(4).PrivateKey().SignHashable(c.magic, t))
+	for k := 20; k < 35; k++ {
+		t.Scripts[k-19].InvocationScript = sigPush(chainx.Acc(k).PrivateKey().SignHashable(c.magic, t))
+	}
+	return retx(t)
 }
